@@ -8,7 +8,7 @@ EAS_PARAMS = ("beta", "altDec", "showerEnergy", "init_lat", "init_long")
 
 
 class EasCtx:
-    def __init__(self, ctx, cloudf="input", allow_different_runs=False):
+    def __init__(self, ctx, cloudf="input", allow_different_runs=False, ignore_params=()):
         I = self.I = ctx.interp()
         I.watch_calls |= {"distance_to_detector", "CphotAng.run", "CphotAng.__call__",
                           "us_std_atm_altitude_from_pressure"}
@@ -30,7 +30,8 @@ class EasCtx:
         for other in runs[1:]:
             # several evaluation paths (e.g. a sequential fast path) are fine as long as they are the same call
             e0, e1 = getattr(runs[0][2], "entry", runs[0][2]), getattr(other[2], "entry", other[2])
-            same = other[0] is runs[0][0] and set(e1) == set(e0) and all(g.same(e1[k], e0[k]) for k in e0)
+            same = other[0] is runs[0][0] and set(e1) == set(e0) and all(g.same(e1[k], e0[k]) for k in e0
+                                                                          if k not in ignore_params)
             if not same and not allow_different_runs:
                 raise AnalysisError(f"the per-event kernel is reached {len(runs)} times from EAS.__call__ with "
                                     "different arguments")
